@@ -27,6 +27,16 @@ fn keep(prop: &str, v: Vec<(String, String)>) -> Vec<(String, String)> {
     v.into_iter().filter(|(c, _)| c.starts_with(prop)).collect()
 }
 
+/// at most `n` characters of `s`, with the full length when something was cut
+fn short(s: &str, n: usize) -> String {
+    let total = s.chars().count();
+    if total <= n {
+        s.to_string()
+    } else {
+        format!("{}…[{} chars]", s.chars().take(n).collect::<String>(), total)
+    }
+}
+
 fn hx(s: &str) -> String {
     hex(s.as_bytes())
 }
@@ -133,7 +143,7 @@ fn oracle_one_liner(c: &TestCaseConfig) -> Vec<(String, String)> {
         } else {
             "C17:one-liner-roundtrip"
         };
-        fails.push((class.to_string(), format!("config {} renders as {:?} and reads back as {}", show_cfg(c), line, shown)));
+        fails.push((class.to_string(), format!("config {} renders as {} and reads back as {}", short(&show_cfg(c), 80), short(&format!("{line:?}"), 90), short(&shown, 80))));
     }
     fails
 }
@@ -153,7 +163,7 @@ fn cfg_rec(prop: &str, c: &TestCaseConfig, which: u64, tag: &str) -> CaseRec {
 const STRINGS: &[&str] = &[
     "a", "", " a", "a ", "\"", "\\", "\\\"", ":", "a: b", "a:b", "{", "}", "{}", ",", "a, b", "#", " #", "a #b", "é", "\t", "\n", "x\ny", "\r", "true", "True", "TRUE", "false", "1", "-1",
     "~", "null", "Null", "no", "Yes", "Y", "n", "on", "OFF", "-", "-x", "a-b", "/p/q.r", "_x", ".x", "0x1f", "1.5", "`", "```", "'", "it's", "\u{0}", "\u{1}", "\u{1b}", "\u{1f}", "\u{a0}", "\u{feff}", "\u{1F600}", "\u{fffd}", "%", "@", "&a", "*a", "!t", "|", ">", "?", "[", "]", "path", "timeout", "a\\nb", "\\u0041",
-    // known defect classes (real code): characters the YAML reader rejects / line breaks
+    // characters the YAML reader rejects / folds as line breaks (escaped as \uXXXX since fix d9da776)
     "\u{7f}", "\u{80}", "\u{9f}", "\u{fffe}", "\u{ffff}", "\u{85}", "x\u{85}y", "\u{2028}", " \u{2028} ", "\u{2029}",
 ];
 
@@ -472,18 +482,18 @@ fn frontmatter_case(prop: &str, d: &DocumentConfig) -> CaseRec {
                         let strs: Vec<String> = d.append.iter().chain(d.prepend.iter()).chain(d.shell.iter()).map(|p| p.to_string_lossy().to_string()).chain(cfg_strings(&d.defaults)).collect();
                         let class = if strs.iter().any(|s| s.chars().any(|ch| !readable(ch) || is_break(ch))) { "C17:front-matter-special-chars" } else { "C17:front-matter-roundtrip" };
                         tag = "fm:differs";
-                        fails.push((class.to_string(), format!("{d:?} serialises as {y:?} and reads back as {back:?}")));
+                        fails.push((class.to_string(), format!("{} serialises as {} and reads back as {}", short(&format!("{d:?}"), 90), short(&format!("{y:?}"), 90), short(&format!("{back:?}"), 90))));
                     }
                 }
             }
             other => {
                 tag = "fm:unreadable";
-                fails.push(("C17:front-matter-roundtrip".to_string(), format!("{d:?} serialises as {y:?} which does not parse: {:?}", other.map(|r| r.map(|_| ()).map_err(|e| e.to_string())))));
+                fails.push(("C17:front-matter-roundtrip".to_string(), format!("{} serialises as {} which does not parse: {}", short(&format!("{d:?}"), 90), short(&format!("{y:?}"), 90), short(&format!("{:?}", other.map(|r| r.map(|_| ()).map_err(|e| e.to_string()))), 90))));
             }
         },
         _ => {
             tag = "fm:unserialisable";
-            fails.push(("C17:front-matter-roundtrip".to_string(), format!("{d:?} cannot be serialised")));
+            fails.push(("C17:front-matter-roundtrip".to_string(), format!("{} cannot be serialised", short(&format!("{d:?}"), 200))));
         }
     }
     CaseRec { op: format!("durfmt {} {}", tt.as_secs(), tt.subsec_nanos()), impl_out: hx(&humantime::format_duration(tt).to_string()), oracle_fail: keep(prop, fails), nontrivial: !d.defaults.is_empty(), tags: vec![tag.to_string()] }
@@ -511,7 +521,7 @@ fn fence_case(prop: &str, c: &TestCaseConfig) -> CaseRec {
                         let one_ok = oracle_one_liner(&full.diff(&base)).is_empty();
                         tag = if one_ok { "fence:differs".into() } else { "fence:one-liner-defect".into() };
                         if one_ok {
-                            fails.push(("C17:fence-embedding".to_string(), format!("config {} embedded as {:?} comes back as {:?}", show_cfg(&full), doc, tcs.iter().map(|t| show_cfg(&t.config)).collect::<Vec<_>>())));
+                            fails.push(("C17:fence-embedding".to_string(), format!("config {} embedded as {} comes back as {}", short(&show_cfg(&full), 80), short(&format!("{doc:?}"), 90), short(&format!("{:?}", tcs.iter().map(|t| show_cfg(&t.config)).collect::<Vec<_>>()), 80))));
                         }
                     }
                 }
@@ -519,14 +529,14 @@ fn fence_case(prop: &str, c: &TestCaseConfig) -> CaseRec {
                     let one_ok = oracle_one_liner(&full.diff(&base)).is_empty();
                     tag = if one_ok { "fence:unparsable".into() } else { "fence:one-liner-defect".into() };
                     if one_ok {
-                        fails.push(("C17:fence-embedding".to_string(), format!("config {} embedded as {:?} does not parse: {:?}", show_cfg(&full), doc, other.map(|r| r.map(|_| ()).map_err(|e| format!("{e:#}"))))));
+                        fails.push(("C17:fence-embedding".to_string(), format!("config {} embedded as {} does not parse: {}", short(&show_cfg(&full), 80), short(&format!("{doc:?}"), 90), short(&format!("{:?}", other.map(|r| r.map(|_| ()).map_err(|e| format!("{e:#}")))), 80))));
                     }
                 }
             }
         }
         other => {
             tag = "fence:generator-failed".into();
-            fails.push(("C17:fence-embedding".to_string(), format!("generator failed for {}: {:?}", show_cfg(&full), other.map(|r| r.map(|_| ()).map_err(|e| e.to_string())))));
+            fails.push(("C17:fence-embedding".to_string(), format!("generator failed for {}: {}", short(&show_cfg(&full), 100), short(&format!("{:?}", other.map(|r| r.map(|_| ()).map_err(|e| e.to_string()))), 150))));
         }
     }
     parseflow_rec(prop, &line, vec![tag], !full.diff(&base).is_empty(), fails)
